@@ -159,6 +159,16 @@ impl World {
                 let link = self.alice.service.sessions().get(&nid).map(|s| s.link).unwrap_or(Link::Inbound);
                 self.alice.service.disconnected(nid, link, &DisconnectReason::Command);
             }
+            "stale_disconnect" => {
+                // the losing side of a connection conflict is torn down: a disconnection for a link
+                // that is not the session's current link; the service must ignore it
+                let p = us(1);
+                let nid = self.nids[p];
+                if let Some(link) = self.alice.service.sessions().get(&nid).map(|s| s.link) {
+                    let other = if link.is_inbound() { Link::Outbound } else { Link::Inbound };
+                    self.alice.service.disconnected(nid, other, &DisconnectReason::Conflict);
+                }
+            }
             "fetch" => {
                 let (tx, rx) = crossbeam_channel::unbounded();
                 self.chans.push(rx);
